@@ -12,6 +12,13 @@ pub trait IntLike: Scalar + Zero + Copy + Send + Sync + 'static {
     const NAME: &'static str;
     fn from_i(v: i64) -> Self;
     fn to_i(self) -> i64;
+    /// the negative zero of a floating point type (integers have none)
+    fn neg_zero() -> Option<Self> {
+        None
+    }
+    fn is_neg_zero(self) -> bool {
+        false
+    }
 }
 impl IntLike for i64 {
     const NAME: &'static str = "i64";
@@ -30,6 +37,12 @@ impl IntLike for f64 {
     fn to_i(self) -> i64 {
         self as i64
     }
+    fn neg_zero() -> Option<Self> {
+        Some(-0.0)
+    }
+    fn is_neg_zero(self) -> bool {
+        self == 0.0 && self.is_sign_negative()
+    }
 }
 impl IntLike for f32 {
     const NAME: &'static str = "32";
@@ -38,6 +51,12 @@ impl IntLike for f32 {
     }
     fn to_i(self) -> i64 {
         self as i64
+    }
+    fn neg_zero() -> Option<Self> {
+        Some(-0.0)
+    }
+    fn is_neg_zero(self) -> bool {
+        self == 0.0 && self.is_sign_negative()
     }
 }
 
@@ -61,6 +80,9 @@ pub enum MCall {
 #[derive(Clone, Debug)]
 pub enum MOp {
     Set(Vec<i64>),
+    /// as `Set`, with the entries at the given positions (zeros) replaced by NEGATIVE zero where the
+    /// scalar type has one: `-0 == 0`, yet they are different numbers and `params()` must tell
+    SetNz(Vec<i64>, Vec<usize>),
     Eval,
     Deriv(usize),
     Params,
@@ -304,6 +326,24 @@ pub fn emit_case<T: IntLike>(out: &mut Out, names: &[String], calls: &[MCall], o
                             Ok(Err(e)) => format!("res err {}", canon_model_err(&e)),
                         });
                     }
+                    MOp::SetNz(v, nz) => {
+                        let isnz = |i: usize| nz.contains(&i) && v[i] == 0 && T::neg_zero().is_some();
+                        out.line(&format!(
+                            "op set {} {}",
+                            v.len(),
+                            v.iter().enumerate().map(|(i, x)| if isnz(i) { "-0".to_string() } else { x.to_string() }).collect::<Vec<_>>().join(" ")
+                        ));
+                        let vv = DVector::from_iterator(
+                            v.len(),
+                            v.iter().enumerate().map(|(i, x)| if isnz(i) { T::neg_zero().unwrap() } else { T::from_i(*x) }),
+                        );
+                        let r = guarded(|| model.set_params(vv));
+                        out.line(&match r {
+                            Err(m) => format!("res panic {}", m),
+                            Ok(Ok(())) => "res ok".to_string(),
+                            Ok(Err(e)) => format!("res err {}", canon_model_err(&e)),
+                        });
+                    }
                     MOp::Eval => {
                         out.line("op eval");
                         let r = guarded(|| model.eval());
@@ -328,7 +368,7 @@ pub fn emit_case<T: IntLike>(out: &mut Out, names: &[String], calls: &[MCall], o
                         out.line(&format!(
                             "res ok {} {} | {} {} {} | {}",
                             p.len(),
-                            p.iter().map(|x| x.to_i().to_string()).collect::<Vec<_>>().join(" "),
+                            p.iter().map(|x| if x.is_neg_zero() { "-0".to_string() } else { x.to_i().to_string() }).collect::<Vec<_>>().join(" "),
                             model.parameter_count(),
                             model.base_function_count(),
                             model.output_len(),
@@ -340,6 +380,24 @@ pub fn emit_case<T: IntLike>(out: &mut Out, names: &[String], calls: &[MCall], o
         }
     }
     out.end();
+}
+
+/// updates that differ only in the SIGN of zero entries: +0 -> -0 -> +0 with queries in between
+fn signed_zero_episode(ops: &mut Vec<MOp>, rng: &mut Rng, p: usize) {
+    let mut v: Vec<i64> = (0..p).map(|_| rng.range(0, 7) as i64).collect();
+    let k = rng.below(p);
+    v[k] = 0;
+    let nz: Vec<usize> = (0..p).filter(|i| v[*i] == 0).collect();
+    ops.push(MOp::Set(v.clone()));
+    ops.push(MOp::Params);
+    ops.push(MOp::SetNz(v.clone(), nz.clone()));
+    ops.push(MOp::Params);
+    ops.push(MOp::Eval);
+    ops.push(MOp::Set(v.clone()));
+    ops.push(MOp::Params);
+    ops.push(MOp::SetNz(v, vec![k]));
+    ops.push(MOp::Params);
+    ops.push(MOp::Deriv(rng.below(p)));
 }
 
 fn s(x: &str) -> String {
@@ -408,6 +466,15 @@ fn alphabet(names: &[String]) -> Vec<MCall> {
             code += 1;
         }
     }
+    // names of the model that the fixed pool does not know (non-ASCII ones): a function of that one
+    // parameter and its derivative, so that VALID models over such names are enumerated too
+    let known = ["a", "b", "z", "a,b", " a", "a ", ""];
+    for nm in names.iter().filter(|n| !known.contains(&n.as_str())).take(2) {
+        al.push(MCall::Function(vec![nm.clone()], Probe { arity: 1, code, len: None }));
+        code += 1;
+        al.push(MCall::Deriv(nm.clone(), Probe { arity: 1, code, len: None }));
+        code += 1;
+    }
     al.push(MCall::Invariant(Probe {
         arity: 0,
         code: 7,
@@ -446,6 +513,11 @@ pub fn stream_mbuilder(out: &mut Out, seed: u64, thorough: bool) {
         vec![s("a,b"), s("c,d")],
         vec![s("a"), s("b,"), s(",c")],
         vec![s("b"), s("a"), s("b"), s("a")],
+        // names are strings of arbitrary characters, not bytes: code points whose low byte is that of
+        // a comma (U+042C, U+012C), of a blank or of a letter of another name are ordinary characters
+        vec![s("Ь")],
+        vec![s("τ"), s("Ĭx")],
+        vec![s("a"), s("š")],
     ];
     let maxlen = if thorough { 4 } else { 3 };
     for (ni, names) in name_lists.iter().enumerate() {
@@ -646,7 +718,7 @@ pub fn random_session(rng: &mut Rng, mutate: bool) -> (Vec<String>, Vec<MCall>, 
                 }
                 6 => {
                     let j = rng.below(names.len());
-                    names[j] = if rng.chance(0.3) { format!(" {}", names[j]) } else { s(*rng.pick(&["a", "b", "", "x,y"])) };
+                    names[j] = if rng.chance(0.3) { format!(" {}", names[j]) } else { s(*rng.pick(&["a", "b", "", "x,y", "Ь", "Ĭ"])) };
                 }
                 8 | 9 => {
                     // a model parameter that no function uses (and an initial guess that still has the
@@ -790,6 +862,7 @@ pub fn stream_model(out: &mut Out, seed: u64, thorough: bool) {
             ops.push(MOp::Params);
             ops.push(MOp::Eval);
             ops.push(MOp::Deriv(rng.below(p)));
+            signed_zero_episode(&mut ops, &mut rng, p);
             if rep % 2 == 0 || ar > 5 {
                 emit_case::<i64>(out, &names, &calls, &ops, 8, "arity");
             } else if rep % 4 == 1 && p <= 5 {
@@ -848,6 +921,7 @@ pub fn stream_model(out: &mut Out, seed: u64, thorough: bool) {
         for k in ks.iter().rev().take(8) {
             ops.push(MOp::Deriv(*k));
         }
+        signed_zero_episode(&mut ops, &mut rng, p);
         if li % 2 == 0 {
             emit_case::<i64>(out, &names, &calls, &ops, 8, "large");
         } else {
